@@ -235,6 +235,23 @@ func VerifCrash() {
 		rt.Unsupported("New failed")
 	}
 	stored, prevs := verifPreload(store, c)
+	if rt.Param("prestep", 0) == 1 {
+		// an arbitrary earlier request on the same process (accepted or refused): whatever it leaves
+		// behind in the process or on the pooled connection is part of the history
+		id0, old0, next0 := rt.Str("logID"), rt.U64("oldSize"), rt.Bytes("nextRaw")
+		out0, err0 := w.Update(context.Background(), id0, old0, next0, verifProof(rt.Param("maxproof", 1)))
+		if rt.Param("prestep_refused_only", 0) == 1 && err0 == nil {
+			rt.Cut("quick tier: only refused earlier requests (accepted ones are what the preload stands for)")
+		}
+		if err0 == nil {
+			for i, id := range c.ids {
+				if id0 == id {
+					stored[i], prevs[i] = true, out0 // acknowledged: this is the state a crash must keep
+				}
+			}
+		}
+		rt.Cover(err0 != nil, "crash/after-a-refused-request")
+	}
 	logID, oldSize, nextRaw := rt.Str("logID"), rt.U64("oldSize"), rt.Bytes("nextRaw")
 	proof := verifProof(rt.Param("maxproof", 1))
 
